@@ -232,7 +232,23 @@ def gen_point(rng, identity):
     if identity == 'mat_transpose':
         return {'a': gmat(rng, 4)}
     if identity == 'mat_inverse':
-        return {'a': gmat(rng, 4)}
+        a = gmat(rng, 4)
+        k = rng.random()
+        if k < 0.3:
+            # affine: last column (0, 0, 0, 1), a general linear part and a
+            # translation (the shape a "fast path" would single out)
+            a[3] = a[7] = a[11] = Fraction(0)
+            a[15] = Fraction(1)
+        elif k < 0.45:
+            # ... or the transposed layout: last row (0, 0, 0, 1)
+            a[12] = a[13] = a[14] = Fraction(0)
+            a[15] = Fraction(1)
+        elif k < 0.55:
+            # block diagonal 2+2
+            for i in (0, 1):
+                for j in (2, 3):
+                    a[i * 4 + j] = a[j * 4 + i] = Fraction(0)
+        return {'a': a}
     if identity == 'mat_singular':
         a = gmat(rng, 4)
         k = rng.random()
